@@ -416,6 +416,24 @@ def _establishment(fn, g: CFG, committed: Set[str], pat) -> Optional[str]:
             continue
         outer = n.ast
         it = norm(outer.iter)
+        # for note in chain.from_iterable(<rows>) / chain(*<rows>): every cell of every row
+        flat = None
+        if isinstance(outer.iter, ast.Call) and norm(outer.iter.func).split(".")[-1] == "from_iterable" and len(outer.iter.args) == 1:
+            flat = norm(outer.iter.args[0])
+        elif isinstance(outer.iter, ast.Call) and norm(outer.iter.func).split(".")[-1] == "chain" and len(outer.iter.args) == 1 \
+                and isinstance(outer.iter.args[0], ast.Starred):
+            flat = norm(outer.iter.args[0].value)
+        if flat is not None and (flat in committed or flat in ("self._data", "self.data")) and isinstance(outer.target, ast.Name):
+            how = _owns(outer.body, outer.target.id)
+            if how == "valueeq":
+                return "valueeq:" + str(outer.lineno)
+            if how == "all":
+                wo = g.reachable(avoid={n.id}, labels_excluded={"exc", "reraise", "nomatch"})
+                if g.exit in wo:
+                    found_partial = True
+                else:
+                    return "all"
+            continue
         if isinstance(outer.iter, ast.Subscript) and isinstance(outer.iter.slice, ast.Slice) \
                 and (norm(outer.iter.value) in committed or norm(outer.iter.value) in ("self._data", "self.data")) \
                 and not (outer.iter.slice.lower is None and outer.iter.slice.upper is None and outer.iter.slice.step is None):
